@@ -562,6 +562,27 @@ let run_refparse (payload : string) : string =
         | Some ds2 -> ds2 = ds | None -> false in
       Printf.sprintf "toks_ok=%b parsed=true wf=%b roundtrip=%b\t%s" ok (RefParser.wf_module ds) reparsed (escape_bytes (List.map (fun c -> n_of_int (Char.code c)) (List.of_seq (String.to_seq (Buffer.contents b)))))
 
+(* ---- C16: the model of the second-generation expression parser on real tokens -------------
+   payload: the tokens of a module `const X: T = EXPR;` (five tokens before the expression) *)
+let run_dexpr (payload : string) : string =
+  let text = unescape_field payload in
+  let lines = List.filter (fun l -> l <> "") (String.split_on_char '\n' text) in
+  let toks = List.map ref_tok_of_line lines in
+  let rec drop n l = if n = 0 then l else match l with [] -> [] | _ :: r -> drop (n - 1) r in
+  let ts = drop 5 toks in
+  let fuel = nat_of_int (20 + 10 * List.length toks) in
+  let semi_only rest = (match rest with [t] -> t.Tok.kind = Tok.KSemicolon | _ -> false) in
+  let d = (match DeltaExpr.parse_expression_res fuel ts with
+    | DeltaExpr.Ok (e, rest) -> if semi_only rest then "ok" else "leftover"
+    | DeltaExpr.Err DeltaExpr.DepthExceeded -> "depth"
+    | DeltaExpr.Err _ -> "err"
+    | DeltaExpr.Fuel -> "fuel") in
+  let r = (match RefParser.parse_expr fuel ts with Some (_, rest) -> if semi_only rest then "ok" else "leftover" | None -> "err") in
+  let same = (match DeltaExpr.parse_expression_res fuel ts, RefParser.parse_expr fuel ts with
+    | DeltaExpr.Ok (e, _), Some (e2, _) -> if DeltaExpr.fold_negative_literals e = e2 then "true" else "false"
+    | _ -> "-") in
+  Printf.sprintf "delta=%s reference=%s same=%s" d r same
+
 (* ---- C07: the typing gate -------------------------------------------------------- *)
 let vtype_of (s : sexp) : Resolve.vtype =
   match s with
@@ -1212,7 +1233,7 @@ let () =
       match String.split_on_char '\t' line with
       | [stream; id; payload] ->
           Hashtbl.reset names;
-          let res = try (if stream = "refparse" then run_refparse payload else dispatch stream (parse_sexp payload))
+          let res = try (if stream = "refparse" then run_refparse payload else if stream = "dexpr" then run_dexpr payload else dispatch stream (parse_sexp payload))
                     with Failure m -> "MODEL-ERROR " ^ m | Not_found -> "MODEL-ERROR not_found" in
           print_string id; print_char '\t'; print_endline res
       | _ -> ()
